@@ -150,6 +150,7 @@ def cases(tier, seed):
                             if n >= V or op == '/': out.append(scalarop_off(ty, n, off, op, Cfg(isa, pipe='P0')))
                 for (M, K, N) in ([(3, 2, V + 1), (2, 3, V)] if not thorough else [(3, 2, V + 1), (2, 3, V), (4, 4, 2 * V + 1), (1, 5, V - 1 or 1), (V, V, V)]):
                     if N <= 17 and M <= 9: out.append(matmul_off(ty, M, K, N, off, cfg))
+                if off == 1 and 5 * V + 2 <= 42: out.append(matmul_off(ty, 5, 2, 5 * V + 2, off, cfg))   # masked-remainder kernel with N >= 5V, N % V > 1
         # runtime checks
         cfgc = Cfg(isa, checks=True)
         for ty in (INT, FLT):
